@@ -136,6 +136,9 @@ def configs(tier):
                         continue
                     out.append(dict(dw=dw, gran=gran, rows=rows, writable=writable, init=init, tokens=tokens))
     out.append(dict(dw=16, gran=8, rows=2, writable=True, init="zero", tokens=2, late_init=True))
+    out.append(dict(dw=16, gran=8, rows=2, writable=True, init="A", tokens=2, elab_twice=True))
+    out.append(dict(dw=32, gran=16, rows=2, writable=False, init="A", tokens=1, elab_twice=True))
+    out.append(dict(dw=8, gran=8, rows=4, writable=True, init="B", tokens=2, elab_twice=True))
     return out
 
 
